@@ -204,6 +204,7 @@ class Items:
         self.enums = {}      # name -> [(variant, [payload type toks])]
         self.consts = {}     # (impl or None, name) -> (type toks, expr toks, where)
         self.macros = {}     # name -> [(pattern toks, body toks)]
+        self.assoc = {}      # (impl, name) -> type toks of `type name = ..;` inside an impl
 
     # ---- scanning ----
     def scan_file(self, rel, text):
@@ -264,6 +265,12 @@ class Items:
                 i += 1
                 if is_p(i, "("):
                     i = mt[i] + 1
+                continue
+            if is_id(i, "type") and impl is not None and is_id(i + 1) and is_p(i + 2, "="):
+                e = to_semicolon(i)
+                self.assoc[(impl, toks[i + 1].s)] = toks[i + 3:e - 1]
+                i = e
+                cfg_test = False
                 continue
             if is_id(i, "use") or is_id(i, "type") or is_id(i, "extern"):
                 i = to_semicolon(i)
@@ -733,7 +740,7 @@ def expand_macro(items, name, args, where):
 #  parsed but never translated: ('loop', block) ('while', cond, block) ('break', e) ('continue', None) ('unsafe', block)
 # statements: ('let', pat, type|None, init|None)  ('expr', e)  ('for', pat, iter, block)
 # patterns:   ('pwild',) ('pbind', name) ('plit', value) ('prange', lo, hi) ('ppath', [segs])
-#             ('ptuple', [segs], [pats]) ('por', [pats]) ('pref', pat)
+#             ('ptuple', [segs], [pats]) ('por', [pats]) ('pref', pat) ('pbindref', name, mutable)
 # types:      ('ty', name, [args])  ('tref', type)  ('tarray', type, len expr)  ('tslice', type)
 #             ('ttuple', [types])
 
@@ -860,7 +867,12 @@ class Parser:
             self.i += 1
             return ("pbind", self.eat_id())
         if self.at_id("ref"):
-            self.fail("`ref` patterns are outside the subset")
+            self.i += 1
+            mutable = False
+            if self.at_id("mut"):
+                self.i += 1
+                mutable = True
+            return ("pbindref", self.eat_id(), mutable)
         if self.at_id("_"):
             self.i += 1
             return ("pwild",)
